@@ -68,11 +68,18 @@ theorem opCopy_lim {o : Opts} {r : Root} {op : Op} {sop : Spec.Op} {f : Bytes}
     | .fail c => OpC2 c (opCopy o r (acc : Int) op)
     | .unspec => True := by
   cases hp : Spec.parsePointer op.path with
-  | none => simp only [Spec.applyOp, hpath, hp]
+  | none =>
+    -- the destination is outside RFC 6901: never a success; the class is that of the source half
+    cases hres : Spec.applyOp (specOpts o) sz acc (den r.con) sop with
+    | ok va => exact absurd hres (spec_path_none_not_ok (by rw [hpath]; exact hp) va)
+    | fail c => exact opCopy_path_none_class sz acc (acc : Int) hr hk hpath hfo hfrm hp hres
+    | unspec => trivial
   | some ptoks =>
     have hp' : Spec.parsePointer sop.path = some ptoks := by rw [hpath]; exact hp
     cases hpf : Spec.parsePointer f with
-    | none => rw [spec_copy_none hk hp' (by rw [hfrm]; exact hpf)]; trivial
+    | none =>
+      rw [spec_copy_none hk hp' (by rw [hfrm]; exact hpf)]
+      exact ⟨.missing, opCopy_from_none hfo hpf, ErrC_missing (Or.inr rfl)⟩
     | some ftoks =>
       rw [spec_copy_lim hk hp' (by rw [hfrm]; exact hpf), eng_opCopy_eq o r (acc : Int) op f hfo]
       have h1 := copy_phase1 (o := o) hr hpf
